@@ -207,7 +207,7 @@ fn boundary_addrs() -> Vec<u32> {
 }
 
 pub fn run(ctx: &Ctx) {
-    ctx.set_rule("(a) all 256 table rows vs bitwise long division; (b) modes_checksum vs remainder on unit vectors, pairs and proptest-random 7/14-byte frames; (c) DF17 frames with generated ME and PI = parity ^ s (s = 0 or random/low weight): accepted => s = 0, and s = 0 with an ME that decodes under DF18 => accepted; (d) per sampled valid DF17 frame all 112 single-bit, 6216 double-bit and all burst corruptions up to L bits end-to-end, plus every burst error polynomial up to 24 (quick: 18) bits through the real modes_checksum; (e) AP overlay for DF 0/4/5/16/20/21 over boundary + random (thorough: all 2^24 for DF0/4/5) addresses x random payloads. Non-trivial = corrupted accepted frame, or overlay case with non-zero address and payload; distinct by hash.");
+    ctx.set_rule("(a) all 256 table rows vs bitwise long division; (b) modes_checksum vs remainder on unit vectors, pairs and proptest-random 7/14-byte frames; (c) DF17 frames with generated ME and PI = parity ^ s (s = 0 or random/low weight): accepted => s = 0, and s = 0 with an ME that decodes under DF18 => accepted; all 2^24 syndromes end-to-end on a valid base frame (thorough: two), i.e. every corruption confined to the 24 parity bits; (d) per sampled valid DF17 frame all 112 single-bit, 6216 double-bit and all burst corruptions up to L bits end-to-end, plus every burst error polynomial up to 24 (quick: 18) bits through the real modes_checksum; (e) AP overlay for DF 0/4/5/16/20/21 over boundary + random (thorough: all 2^24 for DF0/4/5) addresses x random payloads. Non-trivial = corrupted accepted frame, or overlay case with non-zero address and payload; distinct by hash.");
     ctx.assume("bitwise CRC-24 long division with G = 0x1FFF409 is the specification; CRC linearity ties the error-polynomial sweep to end-to-end corruption (sampled end-to-end as well)");
     // (a)
     for i in 0..256 {
@@ -255,6 +255,35 @@ pub fn run(ctx: &Ctx) {
         ctx.class(if *s == 0 { "df17 zero syndrome" } else { "df17 non-zero syndrome" });
         check_acceptance(*ca, *icao, me, *s)
     });
+
+    // (c') the gate itself, exhaustively: the 24 parity bits of a valid frame XOR s give syndrome s exactly, so every
+    // one of the 2^24 - 1 non-zero syndromes (= every corruption confined to the parity field, i.e. every burst of up
+    // to 24 bits there) is offered end-to-end; none may be accepted as DF17, and s = 0 must be
+    {
+        let bases: Vec<Vec<u8>> = vec![hex::decode("8D406B902015A678D4D220AA4BDA").unwrap(), enc::df17(5, 0xabcdef, &enc::me_raw(11, ctx.sub("gate")))];
+        let nb = ctx.tier.pick(1usize, 2usize);
+        for base in bases.iter().take(nb) {
+            let bad = AtomicU64::new(u64::MAX);
+            (0u32..0x100_0000).into_par_iter().for_each(|sy| {
+                let mut f = base.clone();
+                f[11] ^= (sy >> 16) as u8;
+                f[12] ^= (sy >> 8) as u8;
+                f[13] ^= sy as u8;
+                let acc = accepted_as_df17(&f).unwrap_or(true);
+                if acc != (sy == 0) {
+                    bad.fetch_min(sy as u64, Ordering::Relaxed);
+                }
+            });
+            ctx.evals(1 << 24);
+            ctx.class_n("syndromes offered to the DF17 gate end-to-end (all 2^24)", 1 << 24);
+            let b = bad.load(Ordering::Relaxed);
+            if b != u64::MAX {
+                let me: [u8; 7] = base[4..11].try_into().unwrap();
+                let icao = ((base[1] as u32) << 16) | ((base[2] as u32) << 8) | base[3] as u32;
+                ctx.judge(check_acceptance(base[0] & 7, icao, &me, b as u32));
+            }
+        }
+    }
 
     // (d) end-to-end corruptions of sampled valid frames
     let nframes = ctx.tier.pick(24usize, 96usize);
